@@ -88,7 +88,7 @@ ASSUMPTIONS = [
     "assigned while stopped; PdoMap.data is only changed together with update() or a variable write",
     "period comparison uses rel. tolerance 1e-9 (ms -> s conversion may round differently)",
 ]
-BUDGET = {"quick": 38, "thorough": 330}
+BUDGET = {"quick": 150, "thorough": 330}
 
 HB_INDEX = 0x1017
 OTHER_INDEX = 0x2100
